@@ -3,6 +3,7 @@ package zz_verif_sim
 // Plans, traces, the executor, bubbles and statistics.
 
 import (
+	"runtime"
 	"encoding/json"
 	"fmt"
 	"hash/fnv"
@@ -175,6 +176,23 @@ func settle(bubble bool) {
 // arriving then come from handler goroutines, which are not preemption points of the plan.
 var settling bool
 
+// curGID returns the id of the calling goroutine (parsed from its stack header). The interleaving
+// hooks use it to act only on the goroutine that drives the plan: a callback that arrives on a handler
+// goroutine comes at a moment the Go scheduler chose, which is not a preemption point of the plan.
+func curGID() uint64 {
+	var buf [64]byte
+	n := runtime.Stack(buf[:], false)
+	// "goroutine 123 [running]:"
+	var id uint64
+	for _, c := range buf[len("goroutine "):n] {
+		if c < '0' || c > '9' {
+			break
+		}
+		id = id*10 + uint64(c-'0')
+	}
+	return id
+}
+
 // sleepInBubble advances the fake clock.
 func sleepInBubble(d time.Duration) {
 	settling = true
@@ -333,7 +351,12 @@ func runWorld(w *World, ops []Op, hk *execHooks, st *Stats) (tr *Trace, viol *Vi
 
 // ---------- writing replay files ----------
 
-var replayDir = "/verif/replays"
+var replayDir = func() string {
+	if d := os.Getenv("VERIF_REPLAY_DIR"); d != "" {
+		return d
+	}
+	return "/verif/replays"
+}()
 
 func writeReplay(p *Plan) string {
 	os.MkdirAll(replayDir, 0o755)
